@@ -261,7 +261,10 @@ def make_controls(pid):
         ctl.append(mut("C02_Raises", 8, lambda e, t: e.__setitem__("out", "ok")))
         ctl.append(mut("C02_OnlyDoc", 13, lambda e, t: e.__setitem__("out", "CoolantStateError")))
     if pid == "C03":
-        ctl.append(mut("C03_Words", 4, lambda e, t: e["lines"][0]["ws"].append(_w("F", 1500 * U))))
+        def setw(e, letter, v):
+            ws = e["lines"][0]["ws"]
+            ws[[w["l"] for w in ws].index(letter)] = _w(letter, v)
+        ctl.append(mut("C03_Words", 4, lambda e, t: setw(e, "F", 1500 * U)))
         ctl.append(mut("C03_Words", 11, lambda e, t: e["lines"][0]["ws"].__setitem__(1, _w("X", 21 * U))))
         ctl.append(mut("C03_Reject", 5, lambda e, t: e.__setitem__("out", "ok")))
         ctl.append(mut("C03_NaN", 6, lambda e, t: e.__setitem__("out", "ok")))
